@@ -106,6 +106,23 @@ let () =
        | Some sk -> Printf.printf "accepted v6=%s nonblock=%s\n" (b2s sk.from_v6) (b2s sk.nonblocking)
        | None -> print_endline "accepted none");
       List.iter print_endline t1
+    | ["sreq"; maxwait; dec; h] ->
+      (* a peer that stops reading (or reads again when the scripted select() says so): the request part is
+         handled as usual, the send side by the rfbWriteExact mirror; bytes sent and reads are not compared *)
+      let keep l = not (String.length l >= 5 && (String.sub l 0 5 = "send " || String.sub l 0 5 = "reads")) in
+      let t1 = List.filter keep (trace (http_process_n fs_real v_tree !cfg [Data (hb h)])) in
+      print_endline "sreq";
+      List.iter print_endline t1;
+      if List.exists (fun l -> String.length l > 5 && String.sub l 0 5 = "open " && l.[String.length l - 1] = '1') t1 then begin
+        let len = z_of_int 70000 in
+        let ends_r = String.length dec > 0 && dec.[String.length dec - 1] = 'r' in
+        let evs = List.init (String.length dec) (fun k -> if dec.[k] = 'r' then WReady else WTimeout) in
+        let sched = if ends_r then evs @ [WWrote len] else evs in
+        (match wx_loop sched (z_of_int (int_of_string maxwait)) c20_WX_SLICE_MS len Z0 Z0 with
+         | Some (r, t) ->
+           Printf.printf "vwait %d\n" (int_of_z t);
+           Printf.printf "complete %s\n" (b2s (r = WOk))
+         | None -> print_endline "outoffuel") end
     | "poison" :: _ -> print_endline "poison"
     | ["atoi"; h] -> Printf.printf "atoi %d\n" (int_of_z (atoi (hb h)))
     | _ -> Printf.printf "?? %s\n" line)
